@@ -430,9 +430,12 @@ def case_chain_rule(p, ctx):
             if built.top == "mda" and not coupling_on_a_path(built, d_in, d_out) and \
                     ctx.known("mda_request_without_coupling_on_a_path"):
                 return  # the coupled-derivative assembly of BaseMDA raises IndexError on an empty coupling set
-            if built.top == "mda" and output_without_requested_ancestor(built, d_in, d_out) and \
+            if built.top == "mda" and unconnected_request(built, d_in, d_out, "output") and \
                     ctx.known("mda_requested_output_independent_of_requested_inputs"):
                 return  # C09-F6: KeyError in the assembly instead of a zero block
+            if built.top == "mda" and unconnected_request(built, d_in, d_out, "input") and \
+                    ctx.known("mda_requested_input_reaching_no_requested_output"):
+                return  # C09-F7: ValueError (size of the input unknown) instead of a zero block
             jac = process.linearize(data)
             pairs = [(o, u) for o in d_out for u in d_in]
             out = process.io.data
@@ -540,7 +543,7 @@ def coupling_on_a_path(built: Built, d_in, d_out) -> bool:
     return any(adj[i][j] and from_in[i] and to_out[j] for i in range(n) for j in range(n))
 
 
-def output_without_requested_ancestor(built: Built, d_in, d_out) -> bool:
+def unconnected_request(built: Built, d_in, d_out, which: str) -> bool:
     """Does the request hold an output (resp. input) whose discipline(s) are connected to no requested input (resp. output)."""
     from vlib.gen.graphs import closure
 
@@ -550,10 +553,9 @@ def output_without_requested_ancestor(built: Built, d_in, d_out) -> bool:
     reach = closure(n, adj)
     src = [i for i in range(n) if set(leaves[i]["ins"]) & set(d_in)]
     dst = [t for t in range(n) if set(leaves[t]["outs"]) & set(d_out)]
-    for t in dst:
-        if not any(t == s or reach[s][t] for s in src):
-            return True
-    # ... or some requested input is read only by disciplines reaching no producer of a requested output
+    if which == "output":
+        return any(not any(t == s or reach[s][t] for s in src) for t in dst)
+    # some requested input is read only by disciplines reaching no producer of a requested output
     for u in d_in:
         readers = [i for i in range(n) if u in leaves[i]["ins"]]
         if not any(i == t or reach[i][t] for i in readers for t in dst):
